@@ -117,24 +117,48 @@ func sortedWords(set map[word]bool) []word {
 }
 
 // minimalDFASize = number of distinct residual languages of the prefixes of the words (at least 1: the root).
+// Computed on the trie of the words: two trie nodes have the same residual language iff they agree on finality and,
+// label by label, their children do; signatures are numbered bottom-up.
 func minimalDFASize(words []word) int {
-	res := map[string]bool{}
-	prefixes := map[string]bool{"": true}
+	type tnode struct {
+		final bool
+		kids  map[byte]*tnode
+	}
+	root := &tnode{kids: map[byte]*tnode{}}
 	for _, w := range words {
-		for i := 0; i <= len(w); i++ {
-			prefixes[string(w[:i])] = true
-		}
-	}
-	for p := range prefixes {
-		var sb strings.Builder
-		for _, w := range words { // words sorted => suffix lists are in a canonical order
-			if strings.HasPrefix(string(w), p) {
-				fmt.Fprintf(&sb, "%d:%s|", len(w)-len(p), string(w[len(p):]))
+		n := root
+		for i := 0; i < len(w); i++ {
+			c := n.kids[w[i]]
+			if c == nil {
+				c = &tnode{kids: map[byte]*tnode{}}
+				n.kids[w[i]] = c
 			}
+			n = c
 		}
-		res[sb.String()] = true
+		n.final = true
 	}
-	return len(res)
+	ids := map[string]int{}
+	var sig func(n *tnode) int
+	sig = func(n *tnode) int {
+		labels := make([]int, 0, len(n.kids))
+		for c := range n.kids {
+			labels = append(labels, int(c))
+		}
+		sort.Ints(labels)
+		var sb strings.Builder
+		fmt.Fprintf(&sb, "%v", n.final)
+		for _, c := range labels {
+			fmt.Fprintf(&sb, "|%d>%d", c, sig(n.kids[byte(c)]))
+		}
+		k := sb.String()
+		if id, ok := ids[k]; ok {
+			return id
+		}
+		ids[k] = len(ids)
+		return ids[k]
+	}
+	sig(root)
+	return len(ids)
 }
 
 // checkAutomaton validates a finished Dawg against the sorted word list through the exported API and the node dump.
@@ -678,7 +702,7 @@ func genGobCase(t *rapid.T) gobCase {
 		}
 	case "manywords":
 		// few nodes, many words: all words over {a,b} of length <= L, optionally thinned
-		L := rapid.IntRange(6, sz(8, 16)).Draw(t, "L")
+		L := rapid.IntRange(6, sz(8, 13)).Draw(t, "L")
 		thin := rapid.IntRange(0, 3).Draw(t, "thin")
 		var rec func(p []byte)
 		rec = func(p []byte) {
